@@ -136,6 +136,19 @@ func genC18(r *vh.Rand, idx int) c18Spec {
 		}
 		s.Ops = append(s.Ops, op)
 	}
+	// directed: a 2026-07-28 session over stateless HTTP opens (or ends) a per-URI listen stream at the very
+	// instant a debounce timer fires (10 ms after a change): the request is served by a fresh server-side
+	// session whose protocol version the server learns only while handling it
+	for si, ss := range s.Sessions {
+		if ss.Version != "2026-07-28" || ss.Kind != "http-stateless" {
+			continue
+		}
+		for _, op := range s.Ops[:nops] {
+			if (op.Op == "add" || op.Op == "remove") && r.Chance(1, 2) {
+				s.Ops = append(s.Ops, c18Op{At: op.At + 10, Op: r.Choose("sub", "sub", "unsub"), Sess: si, URI: r.Intn(len(c18URIs)), Kind: op.Kind})
+			}
+		}
+	}
 	s.EndAt = at + 150
 	return s
 }
